@@ -234,13 +234,15 @@ TOTALITY_TEXT = {
     "C15": "Reachable-panic discipline for FROST: the C19 rules scoped to every public function of the five frost modules, including "
            "the caller-establishes rule for the ordering assert in derive_interpolating_value.",
 }
+TOTALITY_TEXT["C19"] += (" G14: wherever the result of the FROST identifier comparator is tested, the outcome Equal is handled on its own or "
+                         "rejects (the predicate that establishes the interpolation assert's precondition must be strict).")
 
 
 def check_totality(prop):
     def chk(tier):
         run = Run(prop, tier, level="other")
         cfgs = configs_for(tier)
-        stats = run_engines(run, ["totality", "maskdom", "loops"] if prop == "C19" else ["totality", "limbcov", "flaginit"] if prop == "C10" else ["totality", "limbcov"], cfgs, prop)
+        stats = run_engines(run, ["totality", "maskdom", "loops", "ordering"] if prop == "C19" else ["totality", "limbcov", "flaginit"] if prop == "C10" else ["totality", "limbcov"], cfgs, prop)
         nsites = sum(s["totality"].get("sites", 0) for s in stats.values())
         return run.finish(
             explanation=TOTALITY_TEXT[prop],
@@ -275,7 +277,8 @@ GATE_TEXT = {
            "signature; r never reduced). NOT decided: completeness of the search.",
     "C15": "Structural clauses of C15: reachable-panic discipline of every public FROST function (totality rules, including the "
            "caller-establishes rule for the ordering assert) and the rejection gates of all decoders, decode_list, sign, share "
-           "verification and signature assembly. NOT decided: Lagrange interpolation algebra, wire layout equality (planned).",
+           "verification and signature assembly; G14 every test on the identifier comparator's result treats Equal separately or rejects it "
+           "(strictly increasing lists: no duplicated identifier). NOT decided: Lagrange interpolation algebra.",
     "C16": "Verification-gate clause of C16: LMS verify depends on the exact signature size, leaf index range, both type codes "
            "and the final root comparison, for all four parameter sets. The one-time-key state machine of sign() is checked "
            "by the lmsstate rule (dominance of the index advance).",
@@ -341,6 +344,19 @@ def eng_loops(f, sub, prop):
 ENGINES["loops"] = eng_loops
 
 
+def eng_ordering(f, sub, prop):
+    from . import ordering
+    n, nrej = ordering.run_ordering(f, sub, prop)
+    # counted on the reviewed tree: 5 FROST suites x (sign, decode_list, commitment_list_is_sorted, the interpolation assert)
+    if nrej < 15:
+        sub.oblige(ok=False)
+        sub.add(Finding("G14", "anchor", "gates G14: only %d comparator uses where Equal rejects (floor 15 of the 20 reviewed): the rule "
+                        "would pass vacuously" % nrej, config=f.config, prop=prop))
+
+
+ENGINES["ordering"] = eng_ordering
+
+
 def eng_flaginit(f, sub, prop):
     from . import flaginit
     n = flaginit.run_flaginit(f, sub, prop)
@@ -397,7 +413,7 @@ def check_C18(tier):
 
 CHECKS = {"C17": check_gates("C17", ["hashreset", "widecov"]), "C18": check_C18, "C20": check_gates("C20", ["maskdom", "muxshape", "limbcov", "gates"]), "C05": check_gates("C05", ["gates", "limbcov"]), "C06": check_gates("C06", ["gates", "limbcov"]), "C07": check_gates("C07", ["gates", "limbcov"]),
           "C08": check_gates("C08", ["gates", "limbcov"]), "C09": check_gates("C09", ["gates", "limbcov"]),
-          "C15": check_gates("C15", ["gates", "totality", "limbcov"]), "C16": check_gates("C16", ["gates"]),
+          "C15": check_gates("C15", ["gates", "totality", "limbcov", "ordering"]), "C16": check_gates("C16", ["gates"]),
           "C02": check_C02, "C04": check_C04, "C13": check_gates("C13", ["uxcomp", "gates", "limbcov"], level="exploration"),
           "C19": check_totality("C19"), "C10": check_totality("C10"), "C11": check_totality("C11")}
 
